@@ -4,6 +4,7 @@ Pred: the complete set of observables the statements predict for that operation.
 import copy
 
 INFC = 1 << 30  # "infinite" sequence cost
+FNIDX = {'f': 0, 'v': 1, 'gi': 2, 'gs': 3, 'h': 4, 'r': 5, 'c': 6}
 
 
 def mk_accepts(mk, val, mask, arg):
@@ -581,7 +582,7 @@ class Model:
         return (tuple(sorted((e.id, e.count, e.L, e.H, e.attached, e.saturated_list, e.reported, e.died, tuple(sorted(e.reg.items())))
                              for e in self.exps.values())),
                 tuple(sorted((q.id, tuple(q.entries)) for q in self.seqs.values())),
-                tuple(sorted((o.id, tuple(o.mons), tuple(sorted((fn, tuple(fl['active']), tuple(fl['saturated'])) for fn, fl in o.funcs.items())))
+                tuple(sorted((o.id, tuple(o.mons), tuple(sorted((FNIDX[fn], tuple(fl['active']), tuple(fl['saturated'])) for fn, fl in o.funcs.items())))
                              for o in self.objs.values())))
 
     # ---- compound creation of a sequenced expectation (C12): register / set bounds / become callable ----
